@@ -19,10 +19,10 @@ type pubParams struct {
 	Yield     bool // random yields at hook points
 	SettleP   float64
 	BigP      float64
-	RestartAt int // publish index at which to close and adopt (0 = never)
-	Snaps     bool // take stop-point snapshots
+	RestartAt int    // publish index at which to close and adopt (0 = never)
+	Snaps     bool   // take stop-point snapshots
 	Prelude   [3]int // completed publishes per level before the episode (wrap positioning)
-	NoClose   bool // leave the client open (the caller closes)
+	NoClose   bool   // leave the client open (the caller closes)
 }
 
 func sizeOf(c *run.Ctx, bigP float64) int {
